@@ -116,7 +116,9 @@ class Scanner:
                 break
 
     def error(self, message: str) -> Never:
-        token = Token(TokenKind.ERROR, self.grammar[self.pos], self.start, self.grammar)
+        # There is no character to point at if we're at the end of the grammar.
+        value = self.grammar[self.pos : self.pos + 1]
+        token = Token(TokenKind.ERROR, value, self.start, self.grammar)
         raise PestGrammarSyntaxError(message, token=token)
 
     def scan_grammar(self) -> StateFn | None:
